@@ -752,7 +752,7 @@ def gen_history(rng: random.Random, pool: list, cfg: dict | None = None) -> dict
             op["content"] = op["file"]
             op["file"] = "model.opts"
     # faults: some of the earlier calls are killed part-way (a later call must not see what they left behind)
-    p_int = cfg.get("p_interrupt", 0.2)
+    p_int = cfg.get("p_interrupt", 0.3)
     cart = [f["name"] for f in pool if "cartesian_option" in (f.get("tags") or [])]
     for i in range(len(ops) - 1):
         if rng.random() < p_int:
@@ -764,10 +764,10 @@ def gen_history(rng: random.Random, pool: list, cfg: dict | None = None) -> dict
             # uniform over that range, half log-uniform so that the early phases (option handling, transformer) are hit too
             k = rng.randint(1, 16000) if rng.random() < 0.5 else int(10 ** rng.uniform(0.0, 4.3))
             ops[i] = {"op": "interrupt", "inner": inner, "k": k}
-            if rng.random() < 0.5:
+            if rng.random() < 0.6:
                 # placement by phase: the k-th line event inside one named function of the reader / generator
                 ops[i]["target"] = rng.choice(KILL_TARGETS)
-                ops[i]["k"] = int(10 ** rng.uniform(0.0, 1.6))
+                ops[i]["k"] = int(10 ** rng.uniform(0.0, 2.3))
     # ... and sometimes the one-time load of the special-particle table meets a transient I/O error
     if rng.random() < cfg.get("p_table_fault", 0.15):
         ops.insert(rng.randrange(0, len(ops) - 1), {"op": "arm_table_fault"})
